@@ -24,6 +24,54 @@ MAX_DEPTH = 40
 MAX_INT_BITS = 4096
 
 
+class RawModule:
+    """the module exactly as written: the C18 rules evaluate *values*, so they need neither the alpha-renaming to reference names nor the
+    temporary-inlining / polarity normalisations the shared source model applies for the text-based rules (and the inlining of a local bound to
+    a mutable display - `t = {}` followed by `t[k] = v` - would lose the stores).  Functions are indexed by qualified name as in e1_srcmodel;
+    nodes carry the same location attributes, so `ctx.src.where(node)` works."""
+
+    def __init__(self, mod):
+        self.rel, self.source, self.real = mod.rel, mod.source, mod
+        self.tree = ast.parse(mod.source, filename=mod.path)
+        self.funcs = {}
+        self._index(self.tree, "")
+
+    def _index(self, node, prefix):
+        for child in ast.iter_child_nodes(node):
+            if isinstance(child, (ast.expr_context, ast.operator, ast.unaryop, ast.cmpop, ast.boolop)):
+                continue
+            child._vparent = node
+            child._vmod = self.real
+            if isinstance(child, (ast.FunctionDef, ast.AsyncFunctionDef, ast.ClassDef)):
+                q = prefix + child.name
+                child._vqual = q
+                if not isinstance(child, ast.ClassDef):
+                    k, i = q, 2
+                    while k in self.funcs:
+                        k = f"{q}#{i}"
+                        i += 1
+                    self.funcs[k] = child
+                self._index(child, q + ".")
+            else:
+                self._index(child, prefix)
+
+
+def raw_module(ctx, rel):
+    m = ctx.src.mod(rel)
+    if "_c18_raw" not in m.__dict__:
+        m.__dict__["_c18_raw"] = RawModule(m)
+    return m.__dict__["_c18_raw"]
+
+
+def raw_func(ctx, rel, qual):
+    """the function as written (AnchorError when it does not exist; registered as consulted)"""
+    ctx.src.func(rel, qual)
+    f = raw_module(ctx, rel).funcs.get(qual)
+    if f is None:
+        raise AnchorError(f"function {qual} not found in {rel}")
+    return f
+
+
 class FoldRaise(Exception):
     """the folded code reached a `raise` (or an operation that raises: missing key, bad index)"""
 
@@ -81,9 +129,9 @@ _METHODS = {
     str: {"split", "rsplit", "join", "strip", "lstrip", "rstrip", "lower", "upper", "format", "startswith", "endswith", "replace", "isdigit",
           "isalpha", "find", "index", "count", "partition", "rpartition", "zfill", "title", "splitlines", "isupper", "islower", "removeprefix",
           "removesuffix"},
-    dict: {"items", "keys", "values", "get", "copy", "update", "setdefault", "pop", "fromkeys"},
-    list: {"append", "extend", "insert", "copy", "index", "count", "pop", "sort", "reverse", "remove", "clear"},
-    tuple: {"index", "count"},
+    dict: {"items", "keys", "values", "get", "copy", "update", "setdefault", "pop", "fromkeys", "__getitem__", "__contains__"},
+    list: {"append", "extend", "insert", "copy", "index", "count", "pop", "sort", "reverse", "remove", "clear", "__getitem__", "__contains__"},
+    tuple: {"index", "count", "__getitem__", "__contains__"},
     set: {"add", "union", "intersection", "difference", "update", "issubset", "issuperset", "copy", "discard", "symmetric_difference", "isdisjoint"},
     frozenset: {"union", "intersection", "difference", "issubset", "issuperset", "copy", "symmetric_difference", "isdisjoint"},
     int: {"bit_length", "bit_count"},
@@ -112,7 +160,7 @@ class _Ext:
 class Folder:
     def __init__(self, ctx, rel):
         self.ctx, self.rel = ctx, rel
-        self.mod = ctx.src.mod(rel)
+        self.mod = raw_module(ctx, rel)
         self.steps = 0
         self.depth = 0
         self.literals = set()           # (lineno, col_offset) of every int literal read
